@@ -194,8 +194,8 @@ def run(db, rep, tier):
     rep.ok('F.pair', max(stats['exits'] - len(findings), 0))
     for nm in stats['names']:
         rep.fn(nm)
-    rep.floor('F.pair', stats['resources'], 6)
-    rep.sample('F.pair', '%d raw GSL resources in %d functions, %d exits checked' % (stats['resources'], stats['functions'], stats['exits']))
+    rep.floor('F.pair', stats['resources'] + stats['scoped'], 6)  # a resource moved into a scoped owner still counts as looked at
+    rep.sample('F.pair', '%d raw GSL resources (+%d allocated straight into a smart pointer) in %d functions, %d exits checked' % (stats['resources'], stats['scoped'], stats['functions'], stats['exits']))
     hf, ncls = respair.analyse_holders(db, units)
     for (rec, member, alloc, site, what, where) in hf:
         rep.fail('F.holder', '%s::%s' % (rec, member), where, 'holder releases %s (allocated by %s at %s)' % (member, alloc, site), what, rec)
